@@ -58,7 +58,17 @@ def _self_final(a, o):
     sts = sorted(a.states, key=repr)
     if not sts: return 'skip'
     (a.remove_final_state if sts[0] in {F.val(x) for x in a.final_states} else a.add_final_state)(sts[0]); return 'mutated'
+def _self_grow(a, o):
+    """five more states (the state set is rehashed, so the states are listed in another order than before)"""
+    for k in range(5): a.add_transition(f'#g{k}', 'c', f'#g{(k + 1) % 5}')
+    return 'mutated'
+def _all_words_cfg():
+    from pyformlang.cfg import CFG
+    return CFG.from_text('S -> S S | a | b | c | $')
 FA_OPS = {
+    'SELF.grow': _self_grow,
+    'operand_of_cfg_intersection': lambda a, o: s_cfg(_all_words_cfg().intersection(a)),
+    'operand_of_pda_intersection': lambda a, o: (lambda r: s_pda(r) if r.start_state is not None else 'empty')(_all_words_cfg().to_pda().to_final_state().intersection(a)),
     'SELF.add_transition': _self_add, 'SELF.add_epsilon_transition': _self_add_eps, 'SELF.remove_transition': _self_remove, 'SELF.toggle_final': _self_final,
     'accepts0': lambda a, o: a.accepts(W0), 'accepts1': lambda a, o: a.accepts(W1), 'accepts_eps': lambda a, o: a.accepts([]), 'accepts_b': lambda a, o: (a.accepts(['b']), a.accepts(['b', 'a'])),
     'is_empty': lambda a, o: a.is_empty(), 'is_deterministic': lambda a, o: a.is_deterministic(), 'is_acyclic': lambda a, o: a.is_acyclic(),
@@ -112,7 +122,11 @@ CFG_OPS = {
 def _cnf_tree(g):
     try: return repr(g.get_cnf_parse_tree(W1).get_leftmost_derivation()[-1])
     except Exception as ex: return type(ex).__name__
+def _pda_grow(p, o):
+    for k in range(5): p.add_transition(f'#g{k}', 'a', f'#G{k}', f'#g{(k + 1) % 5}', [f'#G{(k + 2) % 5}'])
+    return 'mutated'
 PDA_OPS = {
+    'SELF.grow': _pda_grow,
     'to_final_state+mutate': lambda p, o: (lambda r: (s_pda(r), mutate_pda(r))[0])(p.to_final_state()),
     'to_empty_stack+mutate': lambda p, o: (lambda r: (s_pda(r), mutate_pda(r))[0])(p.to_empty_stack()),
     'to_cfg': lambda p, o: s_cfg(p.to_cfg()), 'to_cfg_twice': lambda p, o: (s_cfg(p.to_cfg()), s_cfg(o.to_cfg())),
@@ -192,6 +206,13 @@ def cases(tier, seed):
                 for rep in range(2 if tier == 'quick' else 6):
                     o, o2 = desc(kind)
                     yield {'kind': kind, 'obj': o, 'other': o2, 'history': [q, m, q], 'origin': 'query, mutate, same query'}
+    # conversion - grow the object itself - same conversion (indices cached on State / StackSymbol objects by a previous converter)
+    rng5 = random.Random(seed * 15485863 + 3)
+    for rep in range(30 if tier == 'quick' else 300):
+        D = F.random_dfa(rng5, rng5.choice([2, 3, 4]), ['a', 'b'], names=rng5.sample(['s0', 'q1', 'p2', 'x3', 'r4', 'zz', 'k', 8, 1, 16], 4))
+        q = rng5.choice(['operand_of_cfg_intersection', 'operand_of_pda_intersection'])
+        yield {'kind': rng5.choice(['DFA', 'DFA', 'NFA', 'ENFA']), 'obj': F.to_json(D), 'other': F.to_json(D), 'history': [q, 'SELF.grow', q], 'origin': 'conversion, grow the operand, same conversion'}
+        yield {'kind': 'PDA', 'obj': P.to_json(P.random_pda(rng5, reserved=0.0)), 'other': P.to_json(P.random_pda(rng5, reserved=0.0)), 'history': ['to_cfg', 'SELF.grow', 'to_cfg'], 'origin': 'conversion, grow the operand, same conversion'}
     # the memoised analyses of a grammar, in every order, on grammars where the counters do real work
     ANALYSES = ['generating', 'nullable', 'is_empty', 'generate_epsilon', 'contains_eps', 'words2', 'remove_useless', 'remove_epsilon', 'normal_form', 'is_finite']
     rng4 = random.Random(seed * 32452843 + 9)
@@ -218,6 +239,7 @@ def cases(tier, seed):
 def rebuild(kind, obj, make):
     """a freshly built object equal to the current state of `obj` (automata can have been mutated by SELF.* operations)"""
     if kind in ('ENFA', 'NFA', 'DFA'): return F.build(F.extract(obj), dict(F_classes())[kind])
+    if kind == 'PDA': return P.build(P.extract(obj))
     return make()
 
 
